@@ -1174,6 +1174,11 @@ func buildMessageFieldSchema(pkg *Package, context fieldContext, src protoreflec
 	isOneofWrapper := isOneofWrapper(msg, msgOptions)
 
 	ref, didExist := newRefPlaceholder(pkg.PackageSet, msg)
+	if didExist && ref.To == nil && flatten {
+		// the message is an ancestor still being built: flattening it into
+		// itself has no finite set of properties
+		return nil, fmt.Errorf("field %s flattens the recursive message %s", src.Name(), msg.FullName())
+	}
 	if !didExist {
 		var err error
 		if isOneofWrapper {
